@@ -351,3 +351,48 @@ def accounting_stage(ctx, cov):
     ctx.log("accounting stage: %d scheduled lines, %d oracle failures, %d model differences" % (lines, bad, moddiff))
     cov["scheduled_interleaving_lines"] = lines
     cov["accounting_oracle_failures"] = bad
+
+
+def scan_stage(ctx, cov):
+    """C14's concurrent clauses: range queries parked at every iteration while keys around them are
+    inserted and deleted; the Lean scan model must predict when each scan returns and what, and the
+    harness judges the result on its own (ascending, in bounds, at most limit, genuine values, stable
+    keys of the covered window exactly once, never-present keys never)"""
+    ok, out = cargo_build(ctx, ["conc"])
+    if not ok:
+        return
+    outs = run_conc(ctx, 8, ["cases=0", "scans=%d" % (150 if ctx.tier == "quick" else 5000)])
+    lines = bad = moddiff = scans = 0
+    steps = {}
+    for o in outs:
+        if "crash" in o:
+            violation(ctx, "conc harness did not finish: " + o["crash"], o["crash"], tag="crash")
+            continue
+        for k, v in o["meta"]["kinds"].items():
+            if k.startswith("scan steps"):
+                steps[k] = steps.get(k, 0) + v
+            if k == "scan case":
+                scans += v
+        for f in o["fails"]:
+            if f["prop"] == "C14":
+                bad += 1
+                if bad <= 2:
+                    violation(ctx, "range query racing with writers: " + f["what"], "# re-run: harness/target/release/conc --seed %d cases=0 scans=...\n# %s\n" % (ctx.seed * 1000 + outs.index(o), f["what"]), tag="scan")
+        for idx, (op, im, mo) in enumerate(zip(o["ops"], o["impl"], o["model"])):
+            if not op.startswith("scan "):
+                continue
+            lines += 1
+            if im != mo:
+                moddiff += 1
+                if moddiff <= 1 and bad == 0:
+                    s0 = idx
+                    while s0 > 0 and not o["ops"][s0].startswith("scan new"):
+                        s0 -= 1
+                    body = "".join("%s   # implementation: %s | model: %s\n" % (a, b, c) for a, b, c in zip(o["ops"][s0:idx + 1], o["impl"][s0:idx + 1], o["model"][s0:idx + 1]))
+                    violation(ctx, "correspondence: the real range_query and the Lean scan model disagree at `%s`: `%s` vs `%s`" % (op[:80], im[:80], mo[:80]),
+                              "# model Feox.Conc.Range (theorems Feox.C14.concurrent_scan, absent_never_appears, stable_key_exactly_once)\n" + body, no_input=True, tag="scan")
+    ctx.log("scan stage: %d scans, %d lines, %d oracle failures, %d model differences" % (scans, lines, bad, moddiff))
+    cov["concurrent_scans"] = scans
+    cov["concurrent_scan_lines"] = lines
+    cov["concurrent_scan_step_histogram"] = steps
+    cov["concurrent_scan_oracle_failures"] = bad
